@@ -29,7 +29,7 @@ GInit == /\ fee \in FeePcts
          /\ done = FALSE
 
 GStep == /\ ~done /\ Len(hist) < MaxLen
-         /\ \E r \in Requests : \E id \in FreshIds : Serve(r, id)
+         /\ \E r \in Requests : \E id \in FreshIds : \E tt \in ClockChoices(r) : Serve(r, id, tt)
          /\ hist' = Append(hist, last')
          /\ UNCHANGED <<init, done>>
 
@@ -44,7 +44,7 @@ RandReq(k) == LET c == RandomElement(1..(10 + 0 * k)) IN
            ELSE RandomElement(BalReqs)
 
 GStepR == /\ ~done /\ Len(hist) < MaxLen
-          /\ \E r \in {RandReq(Len(hist))} : \E id \in FreshIds : Serve(r, id)
+          /\ \E r \in {RandReq(Len(hist))} : \E id \in FreshIds : \E tt \in ClockChoices(r) : Serve(r, id, tt)
           /\ hist' = Append(hist, last')
           /\ UNCHANGED <<init, done>>
 
